@@ -57,6 +57,12 @@ C["C06"] = ("Coq theorems: any n consecutive round-robin counter values select e
             "list; least-connection never prefers the strictly busier sample; the candidates are healthy members (C15 invariant); Remove through any object with the address closes the stored "
             "object's removal latch. Tie: the real balancers via a re-exported constructor with scripted draws, round robin under 64 concurrent callers, and host.Set sequences vs the model.",
             "The end-to-end TCP part (chosen backend per connection, closure on removal) is exercised by the relay harness; atomic increments assumed distinct/consecutive.", "DESIGN.md §4 C06")
+C["C19"] = ("Coq theorems over the functional image of the counter's doubly linked frequency list: every reachable state (any accesses, latches, frees, capacity >= 1) has strictly "
+            "ascending non-empty nodes, no key twice and at most capacity keys; one access makes the accessed key's count exact (+1 or 1 on admission), leaves all others unchanged, and when "
+            "full evicts exactly one key of minimum count; the collector's Insert keeps the report ordered by non-increasing heat within capacity, and evictStale keeps it ordered for ANY "
+            "subset of halved entries. Tie: operation sequences on the real Counter with the linked structure walked forwards and backwards after every operation vs the extracted model, "
+            "the property oracle on every dump, and collector rounds with a scripted minute clock checked against the report properties.",
+            "Logarithmic counters are random (report checked against the property, not predicted); the Value() data race with HOTKEY readers is not exercised.", "DESIGN.md §4 C19")
 checks = []
 for pid in sorted(C):
     text, note, ref = C[pid]
